@@ -160,6 +160,7 @@ fn project(ex: &Exec, own: &Owners, x: u8) -> (VecDeque<GuideRec>, Vec<Ev>) {
                 }
             },
             What::React(p, mk) => r.probe(p).map(|p| GuideRec { kind: c.kind, what: What::React(p, mk), n: c.n, pick: c.pick, menu: c.menu, target: None }),
+            What::React2(p, mk) => r.probe(p).map(|p| GuideRec { kind: c.kind, what: What::React2(p, mk), n: c.n, pick: c.pick, menu: c.menu, target: None }),
             What::Greet(s) => r.sub(s).map(|s| GuideRec { kind: c.kind, what: What::Greet(s), n: c.n, pick: c.pick, menu: c.menu, target: None }),
             What::Burst(s) => r.sub(s).map(|s| GuideRec { kind: c.kind, what: What::Burst(s), n: c.n, pick: c.pick, menu: c.menu, target: None }),
             What::OnPull(s) => r.sub(s).map(|s| GuideRec { kind: c.kind, what: What::OnPull(s), n: c.n, pick: c.pick, menu: c.menu, target: None }),
